@@ -12,8 +12,24 @@ import (
 // are pairwise not deeply equal, built afresh for every use (so equal keys are deeply equal but
 // never share memory); the zone an instant is expressed in varies with the position.
 
+// records that are windows of one backing array: different values at the same address
+var eqShared = []interface{}{int64(1), int64(2), int64(3), int64(4)}
+var eqSharedMap = map[string]interface{}{"k": "shared"}
+
 func eqRecord(rec string) interface{} {
 	switch rec {
+	case "t":
+		return eqShared[:1]
+	case "u":
+		return eqShared[:3]
+	case "v":
+		return eqShared[1:3]
+	case "w": // the very same map object on both sides (equal, and identical)
+		return eqSharedMap
+	case "x": // nil maps / slices of different static types
+		return map[string]interface{}(nil)
+	case "y":
+		return []interface{}(nil)
 	case "a":
 		return map[string]interface{}{"k": "v"}
 	case "b":
@@ -131,7 +147,7 @@ func genEQ(o *Out, r *Rng, n int, tier string) {
 		}
 	}
 	// random longer lists over a wider alphabet, with shuffles and perturbations
-	recs := []string{"a", "b", "c", "d", "e", "f", "g", "h", "i", "j", "m", "n", "o", "p", "q", "r", "s"}
+	recs := []string{"a", "b", "c", "d", "e", "f", "g", "h", "i", "j", "m", "n", "o", "p", "q", "r", "s", "t", "u", "v", "w", "x", "y"}
 	for i := 0; i < n; i++ {
 		ln := r.Intn(12)
 		if r.Chance(25) {
@@ -151,7 +167,28 @@ func genEQ(o *Out, r *Rng, n int, tier string) {
 			q := r.Intn(j + 1)
 			y[j], y[q] = y[q], y[j]
 		}
-		switch r.Intn(5) {
+		switch r.Intn(6) {
+		case 5: // one record swapped for a near relative (same instant): equal-looking but not deeply equal
+			if len(y) > 0 {
+				i := r.Intn(len(y))
+				p := strings.Split(y[i], ".")
+				sib := map[string][]string{"t": {"u", "v"}, "u": {"t", "v"}, "v": {"t", "u"}, "g": {"h", "i"}, "h": {"g", "i"}, "i": {"g", "h"},
+					"x": {"y", "d", "f"}, "y": {"x", "d"}, "d": {"x", "y"}, "f": {"x"}, "a": {"b"}, "b": {"a"}, "n": {"o", "p"}, "o": {"n"}, "q": {"r"}, "r": {"q"}}
+				alts := sib[p[2]]
+				if len(alts) == 0 {
+					alts = []string{"t", "u", "x", "y"}
+					// make the counterpart in x one of the shared-memory records too
+					for j := range x {
+						if x[j] == y[i] {
+							x[j] = p[0] + "." + p[1] + ".t"
+							break
+						}
+					}
+					p[2] = "t"
+					alts = []string{"u", "v"}
+				}
+				y[i] = p[0] + "." + p[1] + "." + alts[r.Intn(len(alts))]
+			}
 		case 4: // one instant moved by a distance that a truncating comparison does not see
 			if len(y) > 0 {
 				i := r.Intn(len(y))
